@@ -306,7 +306,47 @@ class Neighbours(Family):
         return res
 
 
+def derived_properties(tier):
+    """Grid.xvalues / yvalues ask cell2coord for exactly the first cell of every column / row (so they have ncols / nrows entries, for
+    one-row and one-column grids and for cell sizes that are not representable in binary too); xlim / ylim are the extent"""
+    import numpy as np
+    from hydrodiy.gis import grid as G
+    from engine.contracts import Recorder, patched_module
+    out = []
+
+    def cell2coord(c):
+        nrows, ncols, xll, yll, csz, cells, xy = c.raw_args
+        for k, cell in enumerate(cells):
+            xy[k, 0] = xll + csz * (cell % ncols + 0.5)
+            xy[k, 1] = yll + csz * (nrows - 1 - cell // ncols + 0.5)
+        return 0
+    for nr in (1, 2, 3, 7):
+        for nc in (1, 2, 3, 7):
+            for csz, xll, yll in ((0.05, 0.1, -3.3), (0.1, 0.1, 0.1), (1e-4, 130.0, -20.0), (2.0, 130.0, -40.0)):
+                g = G.Grid('g', nc, nr, cellsize=csz, xllcorner=xll, yllcorner=yll)
+                rec = Recorder({'cell2coord': cell2coord})
+                with patched_module(G, 'c_hydrodiy_gis', rec):
+                    xv, yv = g.xvalues, g.yvalues
+                tag = dict(nrows=nr, ncols=nc, cellsize=csz, xll=xll, yll=yll)
+                asked = [list(map(int, c.args[5])) for c in rec.calls if c.name == 'cell2coord']
+                out.append(('xvalues-asks-first-cell-of-every-column', len(asked) == 2 and asked[0] == list(range(nc)), dict(tag, got=asked[:1])))
+                out.append(('yvalues-asks-first-cell-of-every-row', len(asked) == 2 and asked[1] == list(range(0, nr * nc, nc)), dict(tag, got=asked[1:2])))
+                out.append(('xvalues=column-centres', len(xv) == nc and np.allclose(xv, xll + csz * (np.arange(nc) + 0.5), rtol=1e-12, atol=0), dict(tag, n=len(xv))))
+                out.append(('yvalues=row-centres', len(yv) == nr and np.allclose(yv, yll + csz * (nr - 1 - np.arange(nr) + 0.5), rtol=1e-12, atol=0), dict(tag, n=len(yv))))
+                out.append(('xlim-ylim=extent', g.xlim == (xll, xll + nc * csz) and g.ylim == (yll, yll + nr * csz), tag))
+    return out
+
+
+CONTRACTS = [derived_properties]
+
+
+def contracts_part(tier, seed, workdir):
+    from engine.contracts import run_contracts
+    return run_contracts('C07', 'harness.C07', CONTRACTS, tier)
+
+
 FAMILIES = [Coord2Cell(), Cell2Coord(), RoundTrip(), Cell2RowCol(), Neighbours()]
+PARTS = [contracts_part]
 
 META = dict(
     explanation='bounded symbolic execution of the LLVM IR of c_coord2cell / c_cell2coord / c_cell2rowcol / c_neighbours with symbolic nrows, '
@@ -315,7 +355,7 @@ META = dict(
     bounds=['ncols in {1,2,3,5,7,64,1000}, nrows symbolic in [1,1e6], cell size from nine magnitudes 1e-4..1e4 (symbolic in [1e-4,1e4] for the '
             'round trip), origins up to 1e4 cell sizes from zero, points up to 1e12 cells away from the corner and at least 1e-9 cell sizes from '
             'cell edges, cell numbers over +-2^62'],
-    outside=['xvalues/yvalues/xlim/ylim (numpy one-liners over cell2coord)', 'ncols outside the listed values'],
+    outside=['ncols outside the listed values', 'xvalues/yvalues/xlim/ylim are numpy one-liners over cell2coord: only validated by a recorded-call scenario over a list of geometries'],
     assumptions=['sitofp of cell indices is exact (|index| < 2^53)', 'XR: exact reals; XReps sound for normal-range doubles'],
     stubs=[],
 )
